@@ -230,6 +230,7 @@ func (r *runtime) CompileModule(ctx context.Context, binary []byte) (CompiledMod
 	if err := r.failIfClosed(); err != nil {
 		return nil, err
 	}
+	wasm.VerifYield("compile:after-failifclosed", nil)
 
 	internal, err := binaryformat.DecodeModule(binary, r.enabledFeatures,
 		r.memoryLimitPages, r.memoryCapacityFromMax, !r.dwarfDisabled, r.storeCustomSections)
@@ -342,6 +343,7 @@ func (r *runtime) InstantiateModule(
 		}
 		return nil, err
 	}
+	wasm.VerifYield("instantiate:after-register", mod.(*wasm.ModuleInstance))
 
 	if closeNotifier, ok := ctx.Value(expctxkeys.CloseNotifierKey{}).(experimentalapi.CloseNotifier); ok {
 		mod.(*wasm.ModuleInstance).CloseNotifier = closeNotifier
@@ -388,6 +390,7 @@ func (r *runtime) CloseWithExitCode(ctx context.Context, exitCode uint32) error 
 	if !r.closed.CompareAndSwap(0, closed) {
 		return nil
 	}
+	wasm.VerifYield("rtclose:after-cas", nil)
 	err := r.store.CloseWithExitCode(ctx, exitCode)
 	if r.cache == nil {
 		// Close the engine if the cache is not configured, which means that this engine is scoped in this runtime.
